@@ -92,6 +92,12 @@ def ob_rotate(ctx):
     ctx.require(list(out.dbxrefs) == ["db:1"], "dbxrefs")
     ctx.require(dict(out.annotations) == {"topology": "circular", "organism": "E. coli", "k": [1, 2]},
                 "annotations")
+    # rotation builds a new record: the receiver keeps its sequence, coordinates, qualifiers and track
+    ctx.require(seq_eq(rec.seq, r), "receiver-sequence-changed")
+    ctx.require(len(rec.features) == 1 and quals_equal(rec.features[0].qualifiers, quals), "receiver-features-changed")
+    for (s, e, stx), (s2, e2, st2) in zip(parts, parts_of(rec.features[0])):
+        ctx.require(And(Eq(ival(s2), s), Eq(ival(e2), e), strand_eq(st2, stx)), "receiver-coordinates-changed")
+    ctx.require(_tracks_eq(rec.letter_annotations["phred"], track, n), "receiver-track-changed")
     ctx.witness("k-negative", k < 0)
     ctx.witness("k-beyond-length", k > n)
     if P["parts"] >= 1:
